@@ -195,8 +195,8 @@ func runC19(r *mc.Run) {
 		var cfgS, flagS, flagMeaning [14]int
 		for i, f := range fields {
 			nCfg := 4
-			if f.name == "minimum_tee_tcb_svn" {
-				nCfg = 5 // state 4: an earlier component below the quote's, a later one above it (a mismatch)
+			if f.name == "minimum_tee_tcb_svn" || f.rtmr {
+				nCfg = 5 // state 4: an earlier component below the quote's, a later one above it / an empty RTMR entry before a mismatching one
 			}
 			cfgS[i] = c.Choose("cfg."+f.name, nCfg)
 			if !f.cfgOnly {
@@ -256,6 +256,10 @@ func runC19(r *mc.Run) {
 						rt[2][5] ^= 1
 					case 3:
 						rt = rt[:3]
+					case 4:
+						rt[0], rt[1] = []byte{}, nil
+						rt[3][40] ^= 0x80
+						cfgState = 2
 					}
 					tp(pol).Rtmrs = rt
 				case f.cfgOnly:
@@ -306,6 +310,9 @@ func runC19(r *mc.Run) {
 						hs[1] = hexs(world.Fill("c19-other-rtmr", 48))
 					case 3:
 						hs[3] = "zz"
+					case 4:
+						hs[0], hs[1], hs[2] = "", "", hexs(world.Fill("c19-other-rtmr", 48))
+						flagState = 2
 					}
 					val = strings.Join(hs, ",")
 				default:
